@@ -287,6 +287,38 @@ Section Model.
                  else meth2 in
     maker_result d (meth1 false) g.
 
+  (* ------------------------------------------------------------------ native storage (store_native=True, .native)
+     grid_1d_native_from / grid_2d_native_from: the array keeps one entry per pixel of the mask, row-major; the entries of
+     masked pixels are whatever the array holds there (0 after construction, anything after arithmetic on the structure);
+     grid_1d_slim_from / grid_2d_slim_from / Grid1D.slim / Array2D(values = native array): keep the unmasked entries *)
+  Fixpoint slim_by {A} (bits : list bool) (v : list A) : list A :=
+    match bits, v with
+    | b :: bs, a :: v' => if b then slim_by bs v' else a :: slim_by bs v'
+    | _, _ => []
+    end.
+  Fixpoint native_by {A} (junk : A) (bits : list bool) (v : list A) : list A :=
+    match bits with
+    | [] => []
+    | true :: bs => junk :: native_by junk bs v
+    | false :: bs => match v with a :: v' => a :: native_by junk bs v' | [] => junk :: native_by junk bs [] end
+    end.
+  (* a natively stored Grid1D / Grid2D, given by the content of its array (flattened row-major for 2-D) *)
+  Definition grid1d_of_native (m : mask1) (nv : list T) : grid := G1D m (slim_by (bits1 m) nv).
+  Definition grid2d_of_native (m : mask2) (nc : list pt) : grid := G2D m (slim_by (concat (bits2 m)) nc).
+  (* to_array / to_grid / to_vector_yx on a natively stored Grid2D: AbstractMaker.evaluate_func hands the grid over as it is
+     stored (one coordinate per pixel of the mask: the function's argument is modelled by that flattened list), and the
+     Array2D / Grid2D / VectorYX2D constructors bring a result of native shape back to slim order; a result that does not
+     have one entry per pixel is taken to be slim (and must then pass the constructors' length checks) *)
+  Definition deslim1 (m : mask2) (r : res1) : res1 :=
+    match r with
+    | Vals v => if Nat.eqb (length v) (length (concat (bits2 m))) then Vals (slim_by (concat (bits2 m)) v) else r
+    | Pairs p => if Nat.eqb (length p) (length (concat (bits2 m))) then Pairs (slim_by (concat (bits2 m)) p) else r
+    end.
+  Definition deslim (m : mask2) (r : result) : result :=
+    match r with One r1 => One (deslim1 m r1) | Many l => Many (map (deslim1 m) l) end.
+  Definition maker_result_native (d : maker) (f : grid -> res result) (m : mask2) (nc : list pt) : res output :=
+    bind (f (GRaw nc)) (fun r => wrap d (grid2d_of_native m nc) (deslim m r)).
+
   (* ------------------------------------------------------------------ a family of user functions (the "programs" of the
      correspondence run; the theorems quantify over ALL functions) *)
   Inductive sfun :=
@@ -405,43 +437,15 @@ Section Model.
   Definition radius (p : pt) : T := sqrtT O (norm2 p).
 End Model.
 
+
 (* ====================================================================== correspondence cases (exact rationals) *)
 Definition tol : Q := 1 # 1000000000.
-Definition qnear (a b : Q) : bool := Qabs_le_tol tol a b.
 Definition ptQ := @pt QOps.
-Definition pnear (p q : ptQ) : bool := qnear (fst p) (fst q) && qnear (snd p) (snd q).
-Definition vnear := list_eqb qnear.
-Definition psnear := list_eqb pnear.
 Definition peq (p q : ptQ) : bool := Qeq_bool (fst p) (fst q) && Qeq_bool (snd p) (snd q).
 Definition mask2_eqb (a b : @mask2 QOps) : bool :=
   list_eqb (list_eqb Bool.eqb) (bits2 a) (bits2 b) && peq (ps2 a) (ps2 b) && peq (org2 a) (org2 b).
 Definition mask1_eqb (a b : @mask1 QOps) : bool :=
   list_eqb Bool.eqb (bits1 a) (bits1 b) && Qeq_bool (ps1 a) (ps1 b) && Qeq_bool (org1 a) (org1 b).
-Definition res1_near (a b : @res1 QOps) : bool :=
-  match a, b with
-  | Vals v, Vals w => vnear v w
-  | Pairs p, Pairs q => psnear p q
-  | _, _ => false
-  end.
-Definition cont_near (a b : @container QOps) : bool :=
-  match a, b with
-  | Array2D m v, Array2D m' v' => mask2_eqb m m' && vnear v v'
-  | Grid2D m p, Grid2D m' p' => mask2_eqb m m' && psnear p p'
-  | Vector2D m g p, Vector2D m' g' p' => mask2_eqb m m' && psnear g g' && psnear p p'
-  | ArrayIrr v, ArrayIrr v' => vnear v v'
-  | GridIrr p, GridIrr p' => psnear p p'
-  | VectorIrr g p, VectorIrr g' p' => psnear g g' && psnear p p'
-  | Array1D m v, Array1D m' v' => mask1_eqb m m' && vnear v v'
-  | RawOne r, RawOne r' => res1_near r r'
-  | _, _ => false
-  end.
-Definition out_near (a b : @output QOps) : bool :=
-  match a, b with
-  | OOne c, OOne c' => cont_near c c'
-  | OMany l, OMany l' => list_eqb cont_near l l'
-  | _, _ => false
-  end.
-Definition rout_near := res_eqb out_near.
 
 (* how the harness built the input grid *)
 Inductive gspec :=
@@ -449,7 +453,9 @@ Inductive gspec :=
 | S2D (m : @mask2 QOps) (cs : list ptQ)          (* Grid2D(values = slim coordinates, mask) *)
 | SIrr (cs : list ptQ)                           (* Grid2DIrregular(values) *)
 | S1D (m : @mask1 QOps) (xs : list Q)            (* Grid1D(values = slim x, mask) *)
-| SRaw (cs : list ptQ).                          (* numpy array *)
+| SRaw (cs : list ptQ)                           (* numpy array *)
+| S1DNat (m : @mask1 QOps) (nv : list Q)         (* natively stored Grid1D: the content of its array, one entry per pixel *)
+| S2DNat (m : @mask2 QOps) (nc : list ptQ).      (* natively stored Grid2D: its array flattened row-major, one (y,x) per pixel *)
 Definition build (s : gspec) : @grid QOps :=
   match s with
   | SMask m => grid2d_from_mask m
@@ -457,11 +463,27 @@ Definition build (s : gspec) : @grid QOps :=
   | SIrr cs => GIrr cs
   | S1D m xs => G1D m xs
   | SRaw cs => GRaw cs
+  | S1DNat m nv => grid1d_of_native m nv
+  | S2DNat m nc => grid2d_of_native m nc
   end.
 
 Inductive radfun := REuclid | REllip (q : Q).
 Definition rad_of (r : radfun) : @grid QOps -> list Q :=
   match r with REuclid => @euclid QOps | REllip q => @elliptic QOps q end.
+
+(* one decorated call: which decorator(s), the profile's attributes, the user function, what the user function RECEIVED
+   ([seen]) and what came back ([out]) *)
+Inductive callc :=
+| CMake (d : maker) (u : @ufun QOps) (seen : list ptQ) (out : res (@output QOps))
+| CProject (c a : option ptQ) (remove_centre : bool) (u : @ufun QOps) (seen : list ptQ) (out : res (@output QOps))
+| CRelocate (rmin : option Q) (r : radfun) (u : @ufun QOps) (seen : list ptQ) (out : res (@output QOps))
+| CStack (d : maker) (rmin : option Q) (c a : ptQ) (nested : bool) (u : @ufun QOps) (seen : list ptQ) (out : res (@output QOps)).
+
+(* a history on a few grid OBJECTS that live through it: decorated calls (any profile object, any decorator) and the
+   user's own in-place edits  grid[k] = p  between them.  [post] is the content of the grid's array read back after the call. *)
+Inductive hstep :=
+| HCall (gi : nat) (c : callc) (post : list ptQ)
+| HEdit (gi : nat) (k : nat) (p : ptQ).
 
 Inductive case :=
 | KMake (d : maker) (s : gspec) (u : @ufun QOps) (seen : list ptQ) (out : res (@output QOps))
@@ -469,161 +491,297 @@ Inductive case :=
 | KRelocate (rmin : option Q) (r : radfun) (s : gspec) (u : @ufun QOps) (seen : list ptQ) (out : res (@output QOps))
 | KStack (d : maker) (rmin : option Q) (c a : ptQ) (nested : bool) (s : gspec) (u : @ufun QOps)
          (seen : list ptQ) (out : res (@output QOps))
-| KShape (m : @mask2 QOps) (c : ptQ) (n : Z).      (* Grid2D.grid_2d_radial_projected_shape_slim_from(centre) *)
+| KShape (m : @mask2 QOps) (c : ptQ) (n : Z)       (* Grid2D.grid_2d_radial_projected_shape_slim_from(centre) *)
+| KHist (e : Z) (gs : list gspec) (steps : list hstep).
+         (* all lengths of the case are of the order 2^e: comparisons use the tolerance 1e-9 * 2^e (2^2e for areas) *)
 
-(* the function's argument as the model computes it; [] when the function is not reached *)
-Definition seen_of (x : res (@grid QOps)) : list ptQ := match x with Ok g => coords_of g | Raise _ => [] end.
-Definition raw_out (r : @result QOps) : res (@output QOps) :=
-  match r with One r1 => Ok (OOne (RawOne r1)) | Many l => Ok (OMany (map RawOne l)) end.
+(* ---------------------------------------------------------------------- histories: the state is the list of grid contents;
+   only the user's edits change it.  [cen] = how the coordinates of Grid2D.from_mask are obtained (the model's double loop
+   for [agree], the closed form for [spec_ok]). *)
+Fixpoint set_nth {A} (k : nat) (a : A) (l : list A) : list A :=
+  match l, k with
+  | [], _ => []
+  | _ :: t, 0%nat => a :: t
+  | x :: t, S k' => x :: set_nth k' a t
+  end.
+Definition edit (cen : @mask2 QOps -> list ptQ) (s : gspec) (k : nat) (p : ptQ) : gspec :=
+  match s with
+  | SMask m => S2D m (set_nth k p (cen m))
+  | S2D m cs => S2D m (set_nth k p cs)
+  | SIrr cs => SIrr (set_nth k p cs)
+  | SRaw cs => SRaw (set_nth k p cs)
+  | S1D m xs => S1D m (set_nth k (snd p) xs)
+  | S1DNat m nv => S1DNat m (set_nth k (snd p) nv)
+  | S2DNat m nc => S2DNat m (set_nth k p nc)
+  end.
+(* the content of the object's array (a 1-D grid's x values are shown as (0, x)) *)
+Definition stored (cen : @mask2 QOps -> list ptQ) (s : gspec) : list ptQ :=
+  match s with
+  | SMask m => cen m
+  | S2D _ cs | SIrr cs | SRaw cs | S2DNat _ cs => cs
+  | S1D _ xs | S1DNat _ xs => map (fun x => (0, x)) xs
+  end.
+Fixpoint hist_ok (cen : @mask2 QOps -> list ptQ) (chk : callc -> gspec -> bool) (gs : list gspec) (l : list hstep) : bool :=
+  match l with
+  | [] => true
+  | HCall gi c post :: t =>
+      match nth_error gs gi with
+      | Some s => chk c s && list_eqb peq (stored cen s) post
+      | None => false
+      end && hist_ok cen chk gs t
+  | HEdit gi k p :: t =>
+      match nth_error gs gi with
+      | Some s => hist_ok cen chk (set_nth gi (edit cen s k p) gs) t
+      | None => false
+      end
+  end.
+
+Section Compare.
+  Variable sc : Q.                                   (* the unit of length of the case *)
+  Definition qnear (a b : Q) : bool := Qabs_le_tol (tol * sc) a b.
+  Definition anear (a b : Q) : bool := Qabs_le_tol (tol * sc * sc) a b.          (* areas *)
+  Definition pnear (p q : ptQ) : bool := qnear (fst p) (fst q) && qnear (snd p) (snd q).
+  Definition vnear := list_eqb qnear.
+  Definition psnear := list_eqb pnear.
+  Definition res1_near (a b : @res1 QOps) : bool :=
+    match a, b with
+    | Vals v, Vals w => vnear v w
+    | Pairs p, Pairs q => psnear p q
+    | _, _ => false
+    end.
+  Definition cont_near (a b : @container QOps) : bool :=
+    match a, b with
+    | Array2D m v, Array2D m' v' => mask2_eqb m m' && vnear v v'
+    | Grid2D m p, Grid2D m' p' => mask2_eqb m m' && psnear p p'
+    | Vector2D m g p, Vector2D m' g' p' => mask2_eqb m m' && psnear g g' && psnear p p'
+    | ArrayIrr v, ArrayIrr v' => vnear v v'
+    | GridIrr p, GridIrr p' => psnear p p'
+    | VectorIrr g p, VectorIrr g' p' => psnear g g' && psnear p p'
+    | Array1D m v, Array1D m' v' => mask1_eqb m m' && vnear v v'
+    | RawOne r, RawOne r' => res1_near r r'
+    | _, _ => false
+    end.
+  Definition out_near (a b : @output QOps) : bool :=
+    match a, b with
+    | OOne c, OOne c' => cont_near c c'
+    | OMany l, OMany l' => list_eqb cont_near l l'
+    | _, _ => false
+    end.
+  Definition rout_near := res_eqb out_near.
+
+  (* the function's argument as the model computes it; [] when the function is not reached *)
+  Definition seen_of (x : res (@grid QOps)) : list ptQ := match x with Ok g => coords_of g | Raise _ => [] end.
+  Definition raw_out (r : @result QOps) : res (@output QOps) :=
+    match r with One r1 => Ok (OOne (RawOne r1)) | Many l => Ok (OMany (map RawOne l)) end.
+
+  Definition agree_call (c : callc) (s : gspec) : bool :=
+    match c with
+    | CMake d u seen out =>
+        match s with
+        | S2DNat m nc => psnear nc seen && rout_near (@maker_result_native QOps d (uapply u) m nc) out
+        | _ => psnear (coords_of (eval_arg (build s))) seen && rout_near (@maker_result QOps d (uapply u) (build s)) out
+        end
+    | CProject c a rc u seen out =>
+        let o := @Build_profile QOps c a in
+        psnear (seen_of (project_arg o rc (build s))) seen && rout_near (project_grid o rc (uapply u) (build s)) out
+    | CRelocate rmin r u seen out =>
+        psnear (seen_of (@relocate_arg QOps rmin (rad_of r) (build s))) seen
+        && rout_near (@relocate QOps _ rmin (rad_of r) (fun g => bind (uapply u g) raw_out) (build s)) out
+    | CStack d rmin c a nested u seen out =>
+        psnear (seen_of (@stack_arg QOps rmin c a nested (build s))) seen
+        && rout_near (@stack QOps d rmin c a nested (uapply u) (build s)) out
+    end.
+
+  (* -------------------------------------------------------------------- specification verdict on the implementation's
+     outputs: closed-form coordinates, the mirror table, and the radial-minimum relation (squared radii, no square root).
+     Never calls maker_result / project_grid / relocate / stack / grid_via_mask / projected_2d / slim_by. *)
+  Definition unmasked_of {A} (bits : list bool) (v : list A) : list A :=
+    map snd (filter (fun bv => negb (fst bv)) (combine bits v)).
+  (* coordinate k of the input grid *)
+  Definition spec_coords (s : gspec) : list ptQ :=
+    match s with
+    | SMask m => @spec_centres QOps m
+    | S2D _ cs | SIrr cs | SRaw cs => cs
+    | S1D _ xs => map (fun x => (0, x)) xs
+    | S1DNat m nv => map (fun x => (0, x)) (unmasked_of (bits1 m) nv)
+    | S2DNat m nc => unmasked_of (concat (bits2 m)) nc
+    end.
+  Definition spec_mask2 (s : gspec) : option (@mask2 QOps) :=
+    match s with SMask m | S2D m _ | S2DNat m _ => Some m | _ => None end.
+  Definition spec_mask1 (s : gspec) : option (@mask1 QOps) :=
+    match s with S1D m _ | S1DNat m _ => Some m | _ => None end.
+  Definition ucoords (seen : list ptQ) : @grid QOps := GIrr seen.
+  Definition n_expected (s : gspec) : nat :=
+    match s with
+    | SMask m | S2D m _ | S2DNat m _ => count2 (bits2 m)
+    | SIrr cs | SRaw cs => length cs
+    | S1D m _ | S1DNat m _ => count1 (bits1 m)
+    end.
+
+  (* one returned container against one result of the user function: kind, mask, entry k = result k *)
+  Definition mirror1 (d : maker) (s : gspec) (r : @res1 QOps) (c : @container QOps) : bool :=
+    match spec_mask2 s, spec_mask1 s, s with
+    | Some m, _, _ =>
+        match d, r, c with
+        | ToArray, Vals v, Array2D m' v' => mask2_eqb m m' && vnear v v' && Nat.eqb (length v') (count2 (bits2 m))
+        | ToGrid, Pairs p, Grid2D m' p' => mask2_eqb m m' && psnear p p' && Nat.eqb (length p') (count2 (bits2 m))
+        | ToVector, Pairs p, Vector2D m' g' p' =>
+            mask2_eqb m m' && psnear p p' && psnear (spec_coords s) g' && Nat.eqb (length p') (count2 (bits2 m))
+        | _, _, _ => false
+        end
+    | _, Some m, _ =>
+        match d, r, c with
+        | ToArray, Vals v, Array1D m' v' => mask1_eqb m m' && vnear v v'
+        | ToGrid, Pairs p, Grid2D m' p' =>
+            list_eqb (list_eqb Bool.eqb) (bits2 m') [bits1 m] && peq (ps2 m') (ps1 m, ps1 m) && psnear p p'
+        | _, _, _ => false
+        end
+    | _, _, SIrr cs =>
+        match d, r, c with
+        | ToArray, Vals v, ArrayIrr v' => vnear v v'
+        | ToGrid, Pairs p, GridIrr p' => psnear p p'
+        | ToVector, Pairs p, VectorIrr g' p' => psnear p p' && psnear cs g'
+        | _, _, _ => false
+        end
+    | _, _, SRaw _ => match c with RawOne r' => res1_near r r' | _ => false end
+    | _, _, _ => false
+    end.
+  Definition res1_len (r : @res1 QOps) : nat := match r with Vals v => length v | Pairs p => length p end.
+  (* the constructors that check the length: everything on a 2-D mask *)
+  Definition checks_len (d : maker) (s : gspec) : bool :=
+    match spec_mask2 s, spec_mask1 s, d with
+    | Some _, _, _ => true
+    | _, Some _, ToGrid => true
+    | _, _, _ => false
+    end.
+  Definition mirror (d : maker) (s : gspec) (r : res (@result QOps)) (out : res (@output QOps)) : bool :=
+    match spec_mask1 s, d with
+    | Some _, ToVector => match out with Raise OtherException => true | _ => false end
+    | _, _ =>
+      match r with
+      | Raise e => res_eqb (fun _ _ => false) (Raise e) out
+      | Ok (One r1) =>
+          if checks_len d s && negb (Nat.eqb (res1_len r1) (n_expected s))
+          then match out with Raise _ => true | Ok _ => false end
+          else match out with Ok (OOne c) => mirror1 d s r1 c | _ => false end
+      | Ok (Many l) =>
+          if checks_len d s && negb (forallb (fun r1 => Nat.eqb (res1_len r1) (n_expected s)) l)
+          then match out with Raise _ => true | Ok _ => false end
+          else match out with
+               | Ok (OMany cs) => Nat.eqb (length cs) (length l) && forallb (fun rc => mirror1 d s (fst rc) (snd rc)) (combine l cs)
+               | _ => false
+               end
+      end
+    end.
+  (* the function's result on a natively stored Grid2D, brought to one entry per unmasked pixel: entry k of a result of
+     native shape is the entry at the k-th unmasked pixel *)
+  Definition spec_deslim1 (m : @mask2 QOps) (r : @res1 QOps) : @res1 QOps :=
+    match r with
+    | Vals v => if Nat.eqb (length v) (length (concat (bits2 m))) then Vals (unmasked_of (concat (bits2 m)) v) else r
+    | Pairs p => if Nat.eqb (length p) (length (concat (bits2 m))) then Pairs (unmasked_of (concat (bits2 m)) p) else r
+    end.
+  Definition spec_deslim (m : @mask2 QOps) (r : res (@result QOps)) : res (@result QOps) :=
+    match r with
+    | Ok (One r1) => Ok (One (spec_deslim1 m r1))
+    | Ok (Many l) => Ok (Many (map (spec_deslim1 m) l))
+    | Raise e => Raise e
+    end.
+
+  Definition q2 (x : Q) : Q := x * x.
+  Definition nrm2 (p : ptQ) : Q := q2 (fst p) + q2 (snd p).
+  (* radial-minimum relation for one coordinate [p] (in the profile frame) and what the function received [s]:
+     r >= rmin : unchanged;  r < rmin : same ray (cross = 0, dot >= 0, not the origin) at radius rmin.  [r2] is the squared radius function. *)
+  Definition rad2_of (r : radfun) (p : ptQ) : Q :=
+    match r with REuclid => nrm2 p | REllip q => q2 (fst p) + q2 (snd p / q) end.
+  Definition relocated_ok (rmin : Q) (r2 : ptQ -> Q) (p s : ptQ) : bool :=
+    if Qle_bool rmin 0 || Qle_bool (q2 rmin) (r2 p) then pnear p s
+    else anear (fst p * snd s - snd p * fst s) 0
+         && Qle_bool 0 (fst p * fst s + snd p * snd s) && negb (Qeq_bool (nrm2 s) 0)
+         && anear (r2 s) (q2 rmin).
+  Definition spec_frame (c a : ptQ) (p : ptQ) : ptQ :=
+    let dy := fst p - fst c in let dx := snd p - snd c in (dy * fst a - dx * snd a, dx * fst a + dy * snd a).
+
+  Definition is_err {A} (x : res A) : bool := negb (is_ok x).
+
+  Definition spec_ok_call (c : callc) (s : gspec) : bool :=
+    match c with
+    | CMake d u seen out =>
+        match s with
+        | S2DNat m nc => psnear nc seen && mirror d s (spec_deslim m (uapply u (ucoords seen))) out
+        | _ => psnear (spec_coords s) seen && mirror d s (uapply u (ucoords seen)) out
+        end
+    | CProject c a rc u seen out =>
+        let c0 := match c with Some c => c | None => (0, 0) end in
+        let ang := match a with Some a => (- snd a, fst a) | None => (1, 0) end in      (* cos, sin of angle + 90 degrees *)
+        match spec_mask2 s, spec_mask1 s, s with
+        | Some m, _, _ =>
+            psnear (@spec_projected QOps m c0 ang rc) seen
+            && match uapply u (ucoords seen), out with
+               | Ok (One (Vals v)), Ok (OOne (Array1D m1 v')) =>
+                   vnear v v' && mask1_eqb m1 (@nomask1 QOps (length seen) (fst (ps2 m)))
+               | _, _ => false
+               end
+        | _, Some m, _ =>
+            let xs := map snd (spec_coords s) in
+            psnear (map (fun x => (- (x * snd ang), x * fst ang)) xs) seen
+            && match uapply u (ucoords seen), out with
+               | Ok (One (Vals v)), Ok (OOne (Array1D m1 v')) =>
+                   vnear v v' && mask1_eqb m1 (@nomask1 QOps (count1 (bits1 m)) (ps1 m))
+               | _, _ => false
+               end
+        | _, _, SIrr cs =>
+            match uapply u (ucoords seen), out with
+            | Ok (One (Vals v)), Ok (OOne (ArrayIrr v')) => psnear cs seen && vnear v v'
+            | Ok (One (Pairs p)), Ok (OOne (GridIrr p')) => psnear cs seen && psnear p p'
+            | Ok (Many _), Raise _ => true
+            | _, _ => false
+            end
+        | _, _, _ => is_err out
+        end
+    | CRelocate rmin r u seen out =>
+        match rmin with
+        | None => is_err out
+        | Some rm =>
+            let cs := spec_coords s in
+            Nat.eqb (length seen) (length cs)
+            && forallb (fun ps => relocated_ok rm (rad2_of r) (fst ps) (snd ps)) (combine cs seen)
+            && match uapply u (ucoords seen) with
+               | Ok r0 => rout_near (raw_out r0) out
+               | Raise _ => false
+               end
+        end
+    | CStack d rmin c a nested u seen out =>
+        match rmin with
+        | None => is_err out
+        | Some rm =>
+            let cs := map (spec_frame c a) (spec_coords s) in
+            Nat.eqb (length seen) (length cs)
+            && forallb (fun ps => relocated_ok rm nrm2 (fst ps) (snd ps)) (combine cs seen)
+            && mirror d s (uapply u (ucoords seen)) out
+        end
+    end.
+End Compare.
+
+Definition unit_of (e : Z) : Q := if (0 <=? e)%Z then inject_Z (2 ^ e) else / inject_Z (2 ^ (- e)).
 
 Definition agree (k : case) : bool :=
   match k with
-  | KMake d s u seen out =>
-      psnear (coords_of (eval_arg (build s))) seen && rout_near (@maker_result QOps d (uapply u) (build s)) out
-  | KProject c a rc s u seen out =>
-      let o := @Build_profile QOps c a in
-      psnear (seen_of (project_arg o rc (build s))) seen && rout_near (project_grid o rc (uapply u) (build s)) out
-  | KRelocate rmin r s u seen out =>
-      psnear (seen_of (@relocate_arg QOps rmin (rad_of r) (build s))) seen
-      && rout_near (@relocate QOps _ rmin (rad_of r) (fun g => bind (uapply u g) raw_out) (build s)) out
-  | KStack d rmin c a nested s u seen out =>
-      psnear (seen_of (@stack_arg QOps rmin c a nested (build s))) seen
-      && rout_near (@stack QOps d rmin c a nested (uapply u) (build s)) out
+  | KMake d s u seen out => agree_call 1 (CMake d u seen out) s
+  | KProject c a rc s u seen out => agree_call 1 (CProject c a rc u seen out) s
+  | KRelocate rmin r s u seen out => agree_call 1 (CRelocate rmin r u seen out) s
+  | KStack d rmin c a nested s u seen out => agree_call 1 (CStack d rmin c a nested u seen out) s
   | KShape m c n => Z.eqb (@radial_shape QOps m c) n
+  | KHist e gs steps => hist_ok (@grid_via_mask QOps) (agree_call (unit_of e)) gs steps
   end.
-
-(* ---------------------------------------------------------------------- specification verdict on the implementation's
-   outputs: closed-form coordinates, the mirror table, and the radial-minimum relation (squared radii, no square root).
-   Never calls maker_result / project_grid / relocate / stack / grid_via_mask / projected_2d. *)
-Definition spec_coords (s : gspec) : list ptQ :=
-  match s with
-  | SMask m => @spec_centres QOps m
-  | S2D _ cs | SIrr cs | SRaw cs => cs
-  | S1D _ xs => map (fun x => (0, x)) xs
-  end.
-Definition spec_mask2 (s : gspec) : option (@mask2 QOps) :=
-  match s with SMask m | S2D m _ => Some m | _ => None end.
-Definition ucoords (seen : list ptQ) : @grid QOps := GIrr seen.
-Definition n_expected (s : gspec) : nat :=
-  match s with
-  | SMask m | S2D m _ => count2 (bits2 m)
-  | SIrr cs | SRaw cs => length cs
-  | S1D m _ => count1 (bits1 m)
-  end.
-
-(* one returned container against one result of the user function: kind, mask, entry k = result k *)
-Definition mirror1 (d : maker) (s : gspec) (r : @res1 QOps) (c : @container QOps) : bool :=
-  match s, d, r, c with
-  | (SMask m | S2D m _), ToArray, Vals v, Array2D m' v' => mask2_eqb m m' && vnear v v' && Nat.eqb (length v') (count2 (bits2 m))
-  | (SMask m | S2D m _), ToGrid, Pairs p, Grid2D m' p' => mask2_eqb m m' && psnear p p' && Nat.eqb (length p') (count2 (bits2 m))
-  | (SMask m | S2D m _), ToVector, Pairs p, Vector2D m' g' p' =>
-      mask2_eqb m m' && psnear p p' && psnear (spec_coords s) g' && Nat.eqb (length p') (count2 (bits2 m))
-  | SIrr _, ToArray, Vals v, ArrayIrr v' => vnear v v'
-  | SIrr _, ToGrid, Pairs p, GridIrr p' => psnear p p'
-  | SIrr cs, ToVector, Pairs p, VectorIrr g' p' => psnear p p' && psnear cs g'
-  | S1D m _, ToArray, Vals v, Array1D m' v' => mask1_eqb m m' && vnear v v'
-  | S1D m _, ToGrid, Pairs p, Grid2D m' p' =>
-      list_eqb (list_eqb Bool.eqb) (bits2 m') [bits1 m] && peq (ps2 m') (ps1 m, ps1 m) && psnear p p'
-  | SRaw _, _, _, RawOne r' => res1_near r r'
-  | _, _, _, _ => false
-  end.
-Definition res1_len (r : @res1 QOps) : nat := match r with Vals v => length v | Pairs p => length p end.
-(* the constructors that check the length: everything on a 2-D mask *)
-Definition checks_len (d : maker) (s : gspec) : bool :=
-  match s, d with
-  | (SMask _ | S2D _ _), _ => true
-  | S1D _ _, ToGrid => true
-  | _, _ => false
-  end.
-Definition mirror (d : maker) (s : gspec) (r : res (@result QOps)) (out : res (@output QOps)) : bool :=
-  match s, d with
-  | S1D _ _, ToVector => match out with Raise OtherException => true | _ => false end
-  | _, _ =>
-    match r with
-    | Raise e => res_eqb (fun _ _ => false) (Raise e) out
-    | Ok (One r1) =>
-        if checks_len d s && negb (Nat.eqb (res1_len r1) (n_expected s))
-        then match out with Raise _ => true | Ok _ => false end
-        else match out with Ok (OOne c) => mirror1 d s r1 c | _ => false end
-    | Ok (Many l) =>
-        if checks_len d s && negb (forallb (fun r1 => Nat.eqb (res1_len r1) (n_expected s)) l)
-        then match out with Raise _ => true | Ok _ => false end
-        else match out with
-             | Ok (OMany cs) => Nat.eqb (length cs) (length l) && forallb (fun rc => mirror1 d s (fst rc) (snd rc)) (combine l cs)
-             | _ => false
-             end
-    end
-  end.
-
-Definition q2 (x : Q) : Q := x * x.
-Definition nrm2 (p : ptQ) : Q := q2 (fst p) + q2 (snd p).
-(* radial-minimum relation for one coordinate [p] (in the profile frame) and what the function received [s]:
-   r >= rmin : unchanged;  r < rmin : same ray (cross = 0, dot >= 0, not the origin) at radius rmin.  [r2] is the squared radius function. *)
-Definition rad2_of (r : radfun) (p : ptQ) : Q :=
-  match r with REuclid => nrm2 p | REllip q => q2 (fst p) + q2 (snd p / q) end.
-Definition relocated_ok (rmin : Q) (r2 : ptQ -> Q) (p s : ptQ) : bool :=
-  if Qle_bool rmin 0 || Qle_bool (q2 rmin) (r2 p) then pnear p s
-  else qnear (fst p * snd s - snd p * fst s) 0
-       && Qle_bool 0 (fst p * fst s + snd p * snd s) && negb (Qeq_bool (nrm2 s) 0)
-       && qnear (r2 s) (q2 rmin).
-Definition spec_frame (c a : ptQ) (p : ptQ) : ptQ :=
-  let dy := fst p - fst c in let dx := snd p - snd c in (dy * fst a - dx * snd a, dx * fst a + dy * snd a).
-
-Definition is_err {A} (x : res A) : bool := negb (is_ok x).
 
 Definition spec_ok (k : case) : bool :=
   match k with
-  | KMake d s u seen out =>
-      psnear (spec_coords s) seen && mirror d s (uapply u (ucoords seen)) out
-  | KProject c a rc s u seen out =>
-      let c0 := match c with Some c => c | None => (0, 0) end in
-      let ang := match a with Some a => (- snd a, fst a) | None => (1, 0) end in      (* cos, sin of angle + 90 degrees *)
-      match s with
-      | SMask m | S2D m _ =>
-          psnear (@spec_projected QOps m c0 ang rc) seen
-          && match uapply u (ucoords seen), out with
-             | Ok (One (Vals v)), Ok (OOne (Array1D m1 v')) =>
-                 vnear v v' && mask1_eqb m1 (@nomask1 QOps (length seen) (fst (ps2 m)))
-             | _, _ => false
-             end
-      | S1D m xs =>
-          psnear (map (fun x => (- (x * snd ang), x * fst ang)) xs) seen
-          && match uapply u (ucoords seen), out with
-             | Ok (One (Vals v)), Ok (OOne (Array1D m1 v')) =>
-                 vnear v v' && mask1_eqb m1 (@nomask1 QOps (length xs) (ps1 m))
-             | _, _ => false
-             end
-      | SIrr cs =>
-          match uapply u (ucoords seen), out with
-          | Ok (One (Vals v)), Ok (OOne (ArrayIrr v')) => psnear cs seen && vnear v v'
-          | Ok (One (Pairs p)), Ok (OOne (GridIrr p')) => psnear cs seen && psnear p p'
-          | Ok (Many _), Raise _ => true
-          | _, _ => false
-          end
-      | SRaw _ => is_err out
-      end
-  | KRelocate rmin r s u seen out =>
-      match rmin with
-      | None => is_err out
-      | Some rm =>
-          let cs := spec_coords s in
-          Nat.eqb (length seen) (length cs)
-          && forallb (fun ps => relocated_ok rm (rad2_of r) (fst ps) (snd ps)) (combine cs seen)
-          && match uapply u (ucoords seen) with
-             | Ok r0 => rout_near (raw_out r0) out
-             | Raise _ => false
-             end
-      end
-  | KStack d rmin c a nested s u seen out =>
-      match rmin with
-      | None => is_err out
-      | Some rm =>
-          let cs := map (spec_frame c a) (spec_coords s) in
-          Nat.eqb (length seen) (length cs)
-          && forallb (fun ps => relocated_ok rm nrm2 (fst ps) (snd ps)) (combine cs seen)
-          && mirror d s (uapply u (ucoords seen)) out
-      end
+  | KMake d s u seen out => spec_ok_call 1 (CMake d u seen out) s
+  | KProject c a rc s u seen out => spec_ok_call 1 (CProject c a rc u seen out) s
+  | KRelocate rmin r s u seen out => spec_ok_call 1 (CRelocate rmin r u seen out) s
+  | KStack d rmin c a nested s u seen out => spec_ok_call 1 (CStack d rmin c a nested u seen out) s
   | KShape m c n => Z.eqb (Z.of_nat (@spec_count QOps m c)) n
+  | KHist e gs steps => hist_ok (@spec_centres QOps) (spec_ok_call (unit_of e)) gs steps
   end.
 
 Definition check (k : case) : nat := verdict (agree k) (spec_ok k).
